@@ -300,6 +300,40 @@ def curated():
     out.append(D("latin-3x3", [e3, f3], cross(["e", "f"], ["e", "f"], [["LatinSquare", ["e", "f"]]]), ["latin"]))
     out.append(D("latin-3x2", [e3, d2], cross(["e", "d"], ["e", "d"], [["LatinSquare", ["e", "d"]]]), ["latin"]))
     out.append(D("latin-single", [e3, d2], cross(["e", "d"], ["e"], [["LatinSquare", ["e"]]]), ["latin"]))
+    # --- shapes behind defects D28-D31 (DESIGN 11.8)
+    w2_, cong_ = fac("w", A2), within_eq("k", "c", "w", A2, A2)
+    over_k = fac("m", ["yes", "no"], derive("within", ["k"], fn=lambda l, x: (x[0] == "same") == (l == "yes"), levels=["yes", "no"], dep_levels=[["same", "diff"]]))
+    # an implied derived factor listed BEFORE the implied factor it depends on
+    out.append(D("implied-chain-reversed", [c2, w2_, over_k, cong_], cross(["c", "w", "m", "k"], ["c", "w"]), ["within", "derived-on-derived", "implied-order"]))
+    out.append(D("implied-chain-reversed-atmost", [c2, w2_, over_k, cong_], cross(["c", "w", "m", "k"], ["c", "w"], [["AtMostKInARow", 1, "k", "same"]]),
+                 ["within", "derived-on-derived", "implied-order", "atmost"]))
+    # two crossed within-trial factors over the same uncrossed sources (a source combination can be rejected by both)
+    c_is_r = fac("m", ["cr", "cn"], derive("within", ["c", "w"], fn=lambda l, x, y: (x[0] == "r") == (l == "cr"), levels=["cr", "cn"], dep_levels=[A2, A2]))
+    out.append(D("two-within-crossed-same-sources", [c2, w2_, cong_, c_is_r], cross(["c", "w", "k", "m"], ["k", "m"]), ["within", "derived-crossed", "two-derived-crossed"]))
+    # a within-trial factor crossed with a transition over a basic factor (both in the crossing: preamble trials need every derived factor)
+    out.append(D("within-x-transition-crossed", [c2, w2_, cong_, transition_rep("s", "c", A2)], cross(["c", "w", "k", "s"], ["k", "s"]),
+                 ["within", "transition", "derived-crossed", "preamble"]))
+    out.append(D("within-x-window3-crossed", [c2, w2_, cong_, window_last("v", "c", A2, 3)], cross(["c", "w", "k", "v"], ["k", "v"]),
+                 ["within", "window", "derived-crossed", "preamble", "preamble2"]))
+    # a width-1 window that starts before its source (a transition) has a level: the predicate sees None there
+    early = lambda name: fac(name, ["hit", "miss"], derive("window", ["s"], fn=lambda l, x: (x[0] == "rep") == (l == "hit"), width=1, stride=1, start=0,
+                                                          levels=["hit", "miss"], dep_levels=[["rep", "sw"]]))
+    out.append(D("window1-start0-over-transition-crossed", [c2, transition_rep("s", "c", A2), early("v")], cross(["c", "s", "v"], ["c", "v"]),
+                 ["window", "transition", "derived-on-derived", "derived-crossed", "early-start"]))
+    out.append(D("window1-start0-over-transition-crossed-3", [e3, transition_rep("s", "e", A3), early("v")], cross(["e", "s", "v"], ["e", "v"]),
+                 ["window", "transition", "derived-on-derived", "derived-crossed", "early-start"]))
+    out.append(D("window1-start0-over-transition-uncrossed", [c2, transition_rep("s", "c", A2), early("v")], cross(["c", "s", "v"], ["c"], [["AtMostKInARow", 2, "v", "miss"]]),
+                 ["window", "transition", "derived-on-derived", "early-start", "atmost"]))
+    # --- continuous factors next to the discrete design (C08, C20 only: SC.design_space(continuous=True))
+    wdu_ = fac("d", [["x", 2], ["y", 1]])
+    for nz in (1, 2):
+        zs = [f"z{i}" for i in range(nz)]
+        out.append(D(f"continuous{nz}-plain", [c2, d2], dict(cross(["c", "d"], ["c"]), continuous=zs), ["continuous"]))
+        out.append(D(f"continuous{nz}-w-uncrossed", [c2, wdu_], dict(cross(["c", "d"], ["c"]), continuous=zs), ["continuous", "weight", "weight-uncrossed"]))
+        out.append(D(f"continuous{nz}-repeat-w-uncrossed", [c2, wdu_], repeat(dict(cross(["c", "d"], ["c"]), continuous=zs), [["MinimumTrials", 4]]),
+                     ["continuous", "weight", "weight-uncrossed", "repeat"]))
+    out.append(D("continuous2-two-w-uncrossed", [c2, wdu_, fac("g", [["p", 1], ["q", 3]])], dict(cross(["c", "d", "g"], ["c"]), continuous=["z0", "z1"]),
+                 ["continuous", "weight", "weight-uncrossed"]))
     return out
 
 
